@@ -5,6 +5,7 @@ import GfsModel.OpsFuzz
 import GfsModel.OpsDisk
 import GfsModel.OpsHuge
 import GfsModel.OpsHandles
+import GfsModel.OpsCli
 
 namespace Gfs.Ops
 open Gfs.Proto
@@ -33,6 +34,9 @@ def dispatch (f : List String) : Obs × Option Obs :=
               | none =>
                 match dispatchHandles f with
                 | some r => r
-                | none => ([("bad-op", "1")], none)
+                | none =>
+                  match dispatchCli f with
+                  | some r => r
+                  | none => ([("bad-op", "1")], none)
 
 end Gfs.Ops
